@@ -401,6 +401,15 @@ def run_e2e(case, acc, wd):
             acc.skip('run finished before the signal')
             return False, classes
         if '[ddsmt] interrupted' not in r.stdout:
+            if getattr(r, 'completed', False) and not r.timed_out:
+                # Minimisation was over (its closing messages are there) when the signal took effect:
+                # either CPython discarded the KeyboardInterrupt inside a finalizer and the run went on to
+                # its normal end, or the signal hit the interpreter while it was shutting down (status -2, or
+                # a KeyboardInterrupt trace from an exit handler).  Nothing of ddSMT's was interrupted; the
+                # case says nothing about the diagnostic or the status of an interrupted run.  (About one in
+                # a thousand signalled runs; a tree on which this is the rule is reported by C06.)
+                acc.skip('sigint took effect after minimisation had finished')
+                return False, classes
             acc.violation('diagnostic/usage-sigint', f'stdout={r.stdout[-200:]!r} stderr={r.stderr[-300:]!r}', case)
     if r.timed_out:
         acc.violation(f'hang/usage-{u}', 'ddSMT did not stop within 60 s', case)
